@@ -200,9 +200,13 @@ def declare(spec, cfg, poly=False, ocp=None, stage=None, with_method=True, paren
             return st.offset(mx(e.a[0]), e.a[1])
         if op == 'der':
             return st.der(mx(e.a[0]))
+        if op == 'inf_der':
+            return st.inf_der(mx(e.a[0]))
         raise ValueError(op)
 
     def mx(e):
+        if isinstance(e, (list, tuple)):
+            return ca.vcat([mx(x) for x in e])
         if not isinstance(e, E):
             e = E('c', Fraction(e))
         return ca.MX(ev(e, leaf, dom, wrap))
